@@ -204,7 +204,7 @@ class XEmitter(LoopEmitter):
         for entries in self.methods.values():
             for en in entries:
                 self.reserved.add(en["lname"])
-        self.reserved |= {"ops", "root", "σ", "α"}
+        self.reserved |= {"σ", "α"}
 
     # ---- types
     def tyname(self, ty):
@@ -383,6 +383,12 @@ class XEmitter(LoopEmitter):
             a, aty, aok = self.emit(recv[1], env, None)
             aty = self.resolve(aty)
             if exp not in INT_TYPES:
+                cur = getattr(self, "cur_let", None)
+                if exp is None and cur is not None and cur[0] is e:
+                    # `let x = e.try_into().unwrap();`: the target type is the type variable of the let site; it must
+                    # be determined by a later use (another pass is forced; refused if it never is)
+                    self.dirty = True
+                    return a, ("ivar", cur[1]), aok
                 raise Unsupported("try_into().unwrap() with undetermined target type")
             if aty == "biguint" or aty in INT_TYPES:
                 if aty in INT_TYPES and INT_TYPES[aty] <= INT_TYPES[exp] and not (aty == "usize" or exp == "usize"):
@@ -455,6 +461,18 @@ class XEmitter(LoopEmitter):
 
     def emit_bin(self, e, env, exp):
         _, op, l, r = e
+        if op in ("<", ">", "<=", ">=", "==", "!=") and l[0] == "bin" and l[1] in ("<<", ">>") \
+                and l[2][0] == "lit" and not l[2][2]:
+            b, bty, bok = self.emit(r, env, None)
+            bty = self.resolve(bty)
+            if bty in INT_TYPES:
+                a, aty, aok = self.emit(l, env, bty)
+                self.unify(aty, bty, f"comparison {op}")
+                sym = {"==": "==", "!=": "!="}.get(op)
+                if sym:
+                    return f"({a} {sym} {b})", "bool", self.conj(aok, bok)
+                sym = {"<": "<", ">": ">", "<=": "≤", ">=": "≥"}[op]
+                return f"(decide ({a} {sym} {b}))", "bool", self.conj(aok, bok)
         if op not in ("&&", "||", "<<", ">>") and l[0] in ("path", "mcall", "index", "call"):
             try:
                 a, aty, aok = self.emit(l, env, None)
@@ -571,6 +589,9 @@ class XFnTranslator(FnTranslator):
 
     def seq(self, stmts, i, env, k, ctl):
         em = self.em
+        if i < len(stmts) and stmts[i][0] == "let" and stmts[i][1][0] == "pid" and stmts[i][2] is None \
+                and stmts[i][3] is not None:
+            em.cur_let = (stmts[i][3], stmts[i][4])
         if i < len(stmts) and stmts[i][0] == "mcallstmt":
             _, recv, mname, args = stmts[i][1]
             if recv[0] == "path" and len(recv[1]) == 1 and recv[1][0] in env and env[recv[1][0]][0] is not None:
@@ -756,6 +777,45 @@ def run_u32s(status, changed, read_src):
     emit_file(changed, "U32sLoops2", u_rel, ["TF.Gen.U32sLoops", "TF.Model.RustStd"], [], texts)
 
 
+NTT_FUNCTIONS = [
+    # (lean name, rust name, fuel of `while` loops, field-generic?, needs the root-of-unity parameter?)
+    ("ntt_bitreverse", "bitreverse", DEFAULT_FUEL, False, False),
+    ("ntt_bitreverse_usize", "bitreverse_usize", DEFAULT_FUEL, False, False),
+    # `while (1 << logn) < len` runs at most 64 times; `while k < len { .. k += 2 * m }` at most len / 2 + 1 times
+    ("ntt_bitreverse_order", "bitreverse_order", DEFAULT_FUEL, True, False),
+    ("ntt_unchecked", "ntt_unchecked", "(x.length + 1)", True, False),
+    ("intt_noswap", "intt_noswap", "(x.length + 65)", True, True),
+]
+
+
+def run_ntt(status, changed, read_src):
+    rel = "twenty-first/src/math/ntt.rs"
+    src = read_src(rel)
+    if src is None:
+        for ln, _, _, _, _ in NTT_FUNCTIONS:
+            status["failed"][f"fn {ln}"] = "ext: source file not readable"
+        return
+    cut = src.find("#[cfg(test)]")
+    if cut >= 0:
+        src = src[:cut]
+    tfns, pfns = {}, {}
+    texts = []
+    for ln, rn, fuel, generic, root in NTT_FUNCTIONS:
+        extra = ([("ops", "opsrec")] if generic else []) + ([("root", "rootfn")] if root else [])
+        try:
+            text, params, rty, partial, _ = translate_fn_x(src, rn, ln, rel, tfns, pfns, {}, fuel, field_mode=True,
+                                                           extra_params=extra)
+        except Exception as ex:
+            refuse(status, ln, ex)
+            continue
+        texts.append(text)
+        if not generic:
+            (pfns if partial else tfns)[rn] = (ln, [t for _, t in params], rty)
+        record(status, ln, rel, text, fuel)
+    emit_file(changed, "NttLoops", rel, ["TF.Model.Ntt", "TF.Model.RustStd"], ["variable {σ α : Type}\n"], texts)
+
+
 def run(status, changed, read_src):
     """called at the end of rs2lean_loops.run"""
     run_u32s(status, changed, read_src)
+    run_ntt(status, changed, read_src)
